@@ -25,5 +25,18 @@ CHECKS['C15'] = dict(
          'exercised by a bounded round-trip stand-in and is not counted as proved - hence category other.',
     note='trusted: pyvc encoding (64-bit vectors with no-overflow obligations), z3, memoryview slice semantics, '
          'non-overlap of pixel and data buffers; unverified: Cython twin, DXT decoders, nearest-neighbour filters.')
+CHECKS['C11'] = dict(
+    category='other',
+    technique='contract-based deductive verification of the codec kernels (pyvc segment lemmas over the real '
+              'encoder/decoder loop bodies, quantified array obligations, z3); bounded write->read pairs as stand-in',
+    text='Run-length codec: one arbitrary iteration of the real runlength_encode / runlength_decode loops is proved '
+         'to emit / consume exactly a literal run plus zero-run markers whose counts are in 1..255 and add up to the '
+         'run length (inner loops by invariant + variant); find_or_insert proved to return a stable index of an '
+         'equal-keyed element and keep its index map consistent. The whole-buffer round trip is the structural '
+         'induction over these segments (stated, not mechanised). Structured lumps (static props in 13 format '
+         'versions, detail props, overlays, visibility, cubemaps, planes, vertexes, textures, leaf water, primitives), '
+         'find_or_extend, LZMA header and rejection of unrepresentable values are bounded stand-ins on the sample BSP.',
+    note='trusted: bytes.index summary, struct/lzma modules, pyvc encoding; the sample BSP has no faces/edges/'
+         'physics data, so nodes/leafs/faces/bmodels cross references are not exercised by the bounded tier.')
 _PENDING = 'not yet built in this session (planned, see DESIGN.md section 3); no check is registered so nothing is claimed'
 NOT_APPLICABLE = {f'C{i:02d}': _PENDING for i in range(1, 21) if f'C{i:02d}' not in CHECKS}
